@@ -13,7 +13,9 @@ PROPERTY = "C17"
 LEVEL = "exploration"
 
 KINDS = ["py_int", "py_float", "py_bool", "list_f", "list_i", "nested", "nd_f64", "nd_f32", "nd_f16", "nd_i64", "nd_bool", "nd_0d",
-         "nd_readonly", "nd_noncontig", "t_plain", "t_graph", "t_const", "t_view", "t_int"]
+         "nd_readonly", "nd_noncontig", "t_plain", "t_graph", "t_const", "t_view", "t_int",
+         # inputs that are not ndarrays but hand NumPy their memory without a copy (buffer protocol, __array__), and layouts asarray must keep
+         "buf_array", "buf_memview", "obj_array", "obj_array_iface", "nd_subclass", "nd_F", "nd_T", "nd_rev", "t_T", "t_F"]
 DTYPES = [None, "float16", "float32", "float64", "int32", "bool", "complex128", ">f8", ">i4"]  # incl. byte-swapped (non-native) dtypes
 ENTRIES = ["tensor", "Tensor", "astensor", "asarray"]
 
@@ -67,7 +69,67 @@ def make_input(kind):
         return v
     if kind == "t_int":
         return mg.tensor([1, 2, 3])
+    if kind == "buf_array":
+        import array
+
+        return array.array("d", [1.0, -2.5, 3.0])
+    if kind == "buf_memview":
+        return memoryview(bytearray(np.array([1.0, -2.5, 3.0]).tobytes())).cast("d")
+    if kind == "obj_array":
+        return _HasArray(np.array([1.0, -2.5, 3.0]))
+    if kind == "obj_array_iface":
+        return _HasIface(np.array([1.0, -2.5, 3.0]))
+    if kind == "nd_subclass":
+        return np.array([1.0, -2.5, 3.0]).view(_Sub)
+    if kind == "nd_F":
+        return np.asfortranarray(np.arange(6.0).reshape(2, 3))
+    if kind == "nd_T":
+        return np.arange(6.0).reshape(2, 3).T
+    if kind == "nd_rev":
+        return np.array([1.0, -2.5, 3.0])[::-1]
+    if kind == "t_T":
+        x = mg.tensor(np.arange(6.0).reshape(2, 3))
+        v = x.T
+        v.hold = x
+        return v
+    if kind == "t_F":
+        return mg.tensor(np.asfortranarray(np.arange(6.0).reshape(2, 3)), copy=False)
     raise KeyError(kind)
+
+
+class _Sub(np.ndarray):
+    pass
+
+
+class _HasArray:
+    """exposes an internal array through __array__ (NumPy takes it without copying)"""
+
+    def __init__(self, a):
+        self._a = a
+
+    def __array__(self, dtype=None, copy=None):
+        if dtype is not None and np.dtype(dtype) != self._a.dtype:
+            return self._a.astype(dtype)
+        return self._a.copy() if copy else self._a  # (NumPy 2 protocol: the object honours copy=True itself)
+
+
+class _HasIface:
+    def __init__(self, a):
+        self._a = a
+        self.__array_interface__ = a.__array_interface__
+
+
+def backing(x):
+    """the NumPy array through which the memory of a non-tensor input can be observed and written (None: the input owns no buffer)"""
+    import array
+
+    if isinstance(x, np.ndarray):
+        return x
+    if isinstance(x, (array.array, memoryview)):
+        return np.asarray(x)
+    if isinstance(x, (_HasArray, _HasIface)):
+        return x._a
+    return None
 
 
 def cells_A():
@@ -181,8 +243,11 @@ def check_A(cell):
         ref = np.asarray(xarr, dtype=dt)
         if r.dtype != ref.dtype or r.shape != ref.shape or not np.array_equal(r, ref):
             return ("value", "asarray result differs from numpy.asarray")
-        if isinstance(xarr, np.ndarray) and np.shares_memory(r, xarr) != np.shares_memory(ref, xarr):
-            return ("aliasing", "asarray shares memory=%r, numpy.asarray would %r" % (np.shares_memory(r, xarr), np.shares_memory(ref, xarr)))
+        bk = backing(xarr)
+        if bk is not None and np.shares_memory(r, bk) != np.shares_memory(ref, bk):
+            return ("aliasing", "asarray shares memory=%r, numpy.asarray would %r" % (np.shares_memory(r, bk), np.shares_memory(ref, bk)))
+        if bk is not None and r.strides != ref.strides:
+            return ("layout", "asarray returns strides %r, numpy.asarray %r" % (r.strides, ref.strides))
         return None
     # ---- must it be rejected?
     passthrough = is_t and entry in ("astensor", "tensor") and copy is False and (const is None or x.constant is const) and (dt is None or x.dtype == np.dtype(dt))
@@ -206,7 +271,9 @@ def check_A(cell):
         after = (type(x.creator).__name__, None if x.grad is None else x.grad.copy(), x.data.tobytes())
         if after[0] != state_before[0] or (after[1] is None) != (state_before[1] is None) or after[2] != state_before[2]:
             return ("source_changed", "the source tensor's creator/grad/data changed")
-    src_is_array = isinstance(xarr, np.ndarray)
+    bk = backing(xarr)
+    src_is_array = bk is not None
+    xarr = bk if bk is not None else xarr
     if entry in ("tensor", "Tensor") and copy is True:
         if src_is_array and np.shares_memory(r.data, xarr):
             return ("aliasing", "default construction shares memory with its input")
